@@ -43,3 +43,6 @@ def run(ctx):
         jobrules.check_api_table(ctx, "R10.3")
     except Skip:
         pass
+
+    ctx.rule("R10.8", "a control that finds nothing to do still completes: on every path of every arm the control's flag is raised or handed to a holder")
+    ctx.borrow("C07", ["R07.1"], "R10.8", "a resolved later ticket and an unresolved earlier one would contradict in-order execution as observed through tickets")
